@@ -222,6 +222,7 @@ class Impl:
         self.other_opens = 0
         self.cms = []
         fakeproc.reset_psutil_state(self.ps)
+        self.ps._TOTAL_PHYMEM = 100 * self.page
         self.p = None
         self.counting = False
         self.p = self.ps.Process(PID)
@@ -247,6 +248,7 @@ class Impl:
         for s in SRCS:
             self._write(s)
         fakeproc.reset_psutil_state(self.ps)
+        self.ps._TOTAL_PHYMEM = 100 * self.page
         self.p = None
         self.counting = False
         self.p = self.ps.Process(PID)
@@ -861,12 +863,141 @@ def compare(rows, res, source, known=None):
         if depth > 0 and base is not None and im["reads"][0] + im["probes"] - base > 1:
             res.known_seen[FINDING_PROBE] = res.known_seen.get(FINDING_PROBE, 0) + 1
             break
+    for fid in finding_regions(rows):
+        res.known_seen[fid] = res.known_seen.get(fid, 0) + 1
     bad = block_read_check(rows)
     if bad:
         res.disagree("spec", {"history": hist[:bad[0] + 1], "source": source}, rows[bad[0]][1], rows[bad[0]][2],
                      rows[bad[0]][3], note="%s read more than once inside one outermost block" % bad[1])
         return True
     return False
+
+
+def finding_regions(rows):
+    """regions of the two recorded deviations from the literal wording of clause 1 (both followed by model AND spec)"""
+    seen = set()
+    depth = 0
+    statm_first = None        # statm version memory_info() was given in the open outermost block
+    stat_read = False         # a stat-backed method answered in the open outermost block
+    for (o, im, _, _) in rows:
+        k = o["op"]
+        if k == "enter":
+            if depth == 0:
+                statm_first, stat_read = None, False
+            depth += 1
+        elif k == "exit":
+            depth = max(0, depth - 1)
+        elif k == "call" and depth > 0:
+            out = im["out"]
+            if out.get("kind") == "ok":
+                if o["m"] == "memory_info" and statm_first is None:
+                    statm_first = out["value"][0]
+                elif o["m"] == "memory_full_info" and statm_first is not None and out["value"][-1] != statm_first:
+                    seen.add(FINDING_STATM)
+                if o["m"] in STAT_M:
+                    stat_read = True
+            elif o["m"] == "ppid" and out.get("exc") == "NoSuchProcess" and stat_read:
+                seen.add(FINDING_GONE)
+    return seen
+
+
+# ------------------------------------------------------------------------------ every valid as_dict name, nothing stubbed
+
+
+def _raw(fn):
+    try:
+        return ("ok", repr(fn()))
+    except BaseException as e:  # noqa: BLE001
+        if isinstance(e, (KeyboardInterrupt, SystemExit)):
+            raise
+        return ("exc", type(e).__name__)
+
+
+WARM = ["name", "num_threads", "memory_maps", "memory_info", "cpu_times", "ppid", "uids"]
+
+
+def all_names_one(impl, n):
+    """`with p.oneshot(): <one reader of every cached record>; <everything changes>; r1 = p.n(); <everything changes>;
+    r2 = p.n()` on the REAL method n (nothing stubbed, value not decoded). Oracle, from the statement and the docs only:
+    the three records are read by this object's read routines at most once in the block whatever n is; for a method the
+    documentation groups with one of them (DOC_GROUPS) or that oneshot() names as cached (FRONT_STATM) the two answers
+    are equal (and, where the value can be decoded, equal to the block's first read; fresh again after the block).
+    Returns (violated clause or None, details, known finding seen or None)."""
+    impl.reset()
+    p = impl.p
+    det = {"name": n}
+    known = None
+
+    def bump_all():
+        for s_ in SRCS:
+            impl.ver[s_] += 1
+            impl._write(s_)
+    cm = p.oneshot()
+    cm.__enter__()
+    try:
+        det["warm"] = [_raw(getattr(p, m))[0] for m in WARM]
+        bump_all()
+        r1 = _raw(getattr(p, n))
+        bump_all()
+        r2 = _raw(getattr(p, n))
+        reads = {s_: impl.reads[s_] for s_ in BLOCK_CACHED}
+    finally:
+        try:
+            cm.__exit__(None, None, None)
+        except BaseException as e:  # noqa: BLE001
+            return "oneshot().__exit__ raised %s" % type(e).__name__, det, None
+    bump_all()
+    r3 = _raw(getattr(p, n))
+    det.update(first=r1, second=r2, after_exit=r3, reads_in_block=reads)
+    if det["warm"] != ["ok"] * len(WARM):
+        return "a warm-up call failed in the fake world: %r" % (det["warm"],), det, None
+    for s_ in BLOCK_CACHED:
+        if reads[s_] > 1:
+            return ("%s() made this object's read routines read %s again inside a block in which it had been read "
+                    "(%d reads)" % (n, s_, reads[s_])), det, None
+    grouped = [g for g, ns in DOC_GROUPS.items() if n in ns] or (["statm"] if n in FRONT_STATM else [])
+    if grouped:
+        if r1[0] != "ok" or r2[0] != "ok":
+            return "%s() (documented as served by the %s record) failed inside the block: %r / %r" % (n, grouped[0], r1, r2), det, None
+        if r1 != r2:
+            if n == "memory_full_info":
+                known = FINDING_STATM          # statm is read again by the platform memory_info(): recorded deviation
+            else:
+                return ("%s() gave two different answers inside ONE block although its record (%s) was read before both "
+                        "calls: %s then %s" % (n, grouped[0], r1[1], r2[1])), det, None
+    if n == "memory_percent":
+        vals = []
+        for r in (r1, r2, r3):
+            vals.append(round(float(r[1]), 6) if r[0] == "ok" else None)
+        det["decoded"] = vals
+        if vals[0] != 1.0 or vals[1] != 1.0:
+            return "memory_percent() inside the block is not the block's first statm read (version 1): %r" % (vals,), det, None
+        if vals[2] != float(impl.ver["statm"]):
+            return "memory_percent() after the block is not fresh: %r at version %d" % (vals[2], impl.ver["statm"]), det, None
+    return None, det, known
+
+
+def all_names_runs(ctx, impl, res):
+    bad = sorted(set(impl.valid) & set(NOT_GETTERS))
+    res.count("family:valid_names_check")
+    if bad:
+        res.disagree("spec", {"valid_names": bad}, {"valid": sorted(impl.valid)}, None,
+                     {"clause": "as_dict() calls only read-only getters"},
+                     note="psutil._as_dict_attrnames contains %r: `p.as_dict()` would CALL it (as_dict()'s documentation: "
+                          "'all public (read only) attributes')" % (bad,))
+    for n in sorted(impl.valid):
+        if n == "pid" or n in NOT_GETTERS:
+            continue
+        why, det, known = all_names_one(impl, n)
+        res.count("family:allnames")
+        res.count("allnames_outcome:" + det.get("first", ("?",))[0])
+        res.case(("allnames", n), nontrivial=True, sample=det if n in ("status", "memory_percent") else None)
+        if known:
+            res.known_seen[known] = res.known_seen.get(known, 0) + 1
+        if why:
+            res.disagree("spec", {"allnames": n}, det, None, {"clause": why},
+                         note="every valid as_dict name, real method, twice in one block: " + why)
+    impl.reset()
 
 
 CORPUS = [
@@ -958,6 +1089,7 @@ def correspond(ctx, res):
                 res.case(h, nontrivial=bool(feats - {"block", "exit_normal"}),
                          sample={"family": tag, "history": h, "impl_last": rows[-1][1]} if (a + j) in (0, 3, 6, 9, 12) else None)
                 compare(rows, res, tag)
+        all_names_runs(ctx, impl, res)
         res.count("probe_opens_total", impl.total_probes + impl.probes)
         res.exhaustive = ("all %d well-nested histories of length <= %d over {enter, exit, exit-by-exception, name(), "
                           "ppid(), new stat content}; as_dict(attrs) for all %d combinations of {every %s of the universe %s} x "
@@ -1033,6 +1165,14 @@ def replay(ctx, rp, res):
         return c16_preempt.replay(ctx, rp, res)
     if "schedule" in rp["input"]:
         return c16_sched.replay(ctx, rp, res)
+    if "allnames" in rp["input"] or "valid_names" in rp["input"]:
+        impl = Impl(ctx)
+        try:
+            if "valid_names" in rp["input"]:
+                return bool(set(impl.valid) & set(NOT_GETTERS))
+            return all_names_one(impl, rp["input"]["allnames"])[0] is not None
+        finally:
+            impl.close()
     hist = rp["input"].get("history")
     if not hist:
         return True
@@ -1048,6 +1188,15 @@ def check_finding(ctx, fnd):
     w = fnd["witness"]
     if w.get("kind") == "schedule":
         return c16_sched.check_finding(ctx, fnd)
+    if "expect" in w:
+        # sequential witness with recorded outcomes: reproduces iff the implementation still answers exactly that
+        impl = Impl(ctx)
+        try:
+            impl.reset()
+            got = [impl.do(o)["out"] for o in w["history"]]
+            return "reproduces" if got == w["expect"] else "gone"
+        finally:
+            impl.close()
     # sequential witness: total opens of /proc/<pid>/stat inside one block
     impl = Impl(ctx)
     try:
